@@ -18,6 +18,22 @@ RULE = ("generated PSM tables (5-200 rows, spectra with 1-5 PSMs, peptides share
         "(PSM id, q-value, order, target/decoy file) with the extracted model. Default stream: pairwise distinct scores; "
         "tie stream: only (entity, score) sets are compared. distinct = distinct case; non-trivial = some spectrum has "
         ">= 2 PSMs and some peptide is shared by >= 2 spectra. "
+        "White-box stream (tag wb; same pipeline): tables of 1-4 / 5-40 / 41-300 rows; all-target, all-decoy and "
+        "best-row-is-a-decoy tables; scan numbers beyond 2^54; score vectors of multiples of 1/256 with up to 30 significant "
+        "bits (not float32 values, neighbours 1/256 apart), full-mantissa doubles of magnitude 1e-6..1e6, exact ties between "
+        "rows of different groups only (xties: every file is compared as the set of its (PSM id, q-value) rows), ties inside "
+        "groups, integers; the vector handed over as float64 / int64 / float32 / strided / negative-stride / read-only array; "
+        "input columns in random order, required and optional column names in other letter cases, feature columns named "
+        "score / PSMId / q-value / proteinIds; Parquet inputs with row groups of 1..n-1 rows, int8 / int32 / float64 labels, "
+        "int32 scan numbers, dictionary-encoded (categorical) string columns; text inputs that print whole-number masses and "
+        "retention times without '.0'; prefixes all / none / MIXED / containing dots; non-empty file_root; destination "
+        "directories holding chunk files, level files and result files of an earlier run; an earlier call with other scores "
+        "into the same directory; differing state of numpy's global generator; 1-3 workers. "
+        "In EVERY assign_confidence case the verdict also requires the property oracle to hold on the files written: each row "
+        "carries the peptide, proteins, level values and score of the input PSM named by its id, rows of a collection only in "
+        "its own files, ranked best first, one row per entity and a best one, q-values = C01 formula on the retained rows "
+        "(this is the only check of the cell contents, which the model does not have, and of the levels above the PSMs / the "
+        "q-values in the tie stream). "
         "Rollup tool: generated source directories (1-4 collections of <name>.targets.<base>s / <name>.decoys.<base>s, base "
         "level psm / precursor / peptide / modifiedpeptide / peptidegroup, text or Parquet, level columns present or absent "
         "under their standard or alias names, a decoys or targets file missing, a stale result file of an earlier run, a "
@@ -25,15 +41,29 @@ RULE = ("generated PSM tables (5-200 rows, spectra with 1-5 PSMs, peptides share
         "real assign_confidence (prefixes a, b, c; do_rollup=True); brew_rollup.main is run on them and every "
         "<root>.targets.<level>s / <root>.decoys.<level>s is compared row by row (PSM id, order, q-value, file) with the "
         "extracted model; tie stream: (entity, score) sets per level; malformed stream: unsorted file, empty file, no file, "
-        "both formats, differing schemas, no score column (error kinds compared). compute_rollup_levels is compared with "
+        "both formats, differing schemas, no score column (error kinds compared). White-box dimensions of the tool cases: "
+        "columns in random order, integer-valued level ids (0 included, equal numbers at different levels), scores k/2, k/256 "
+        "with 30 significant bits, full-mantissa doubles (Parquet only), destination = source directory (the tool's default), "
+        "the tool run twice, one source of 1100-1500 rows in both tiers (longer than the 1000-row write buffers) and one of "
+        "24000 rows in the thorough tier (longer than the 10000-row reader chunks; too long for the extracted model: "
+        "decided by the property oracle alone); the verdict also requires the "
+        "property oracle (every cell of an output row equals the input row's cell, one best row per entity over all files, "
+        "q-values). compute_rollup_levels is compared with "
         "the model on every base level with the default table and random tables. non-trivial (rollup) = some entity has rows "
         "in two different files")
 ASSUMPTIONS = [
     "PEP estimation is replaced by a constant during these runs (oracle of C06); q-values are the TDC q-values",
-    "pandas sort_values and the glob order of chunk files only matter among tied scores (excluded from the default stream)",
-    "spectrum / level keys enter the model as integer ids of the distinct value tuples",
+    "pandas sort_values and the glob order of chunk files only matter among tied scores (streams with ties compare sets)",
+    "spectrum / level keys enter the model as integer ids of the distinct value tuples (Python equality: 500 == 500.0)",
     "rollup tool: the schema (column names and dtypes) each reader reports for a source file is recorded with pandas / pyarrow "
     "and enters the model as an id (equal ids = equal schemas); Path.glob + sorted = the file names in string order",
+    "known findings (known_findings.json; each input class is decided from the case alone, the rest of such a case is still "
+    "compared): text input + full-mantissa scores -> result scores differ from the 13th digit on (everything else must agree); "
+    "Parquet input with a dictionary column and row groups not aligned with the chunk size -> ValueError; text input printing "
+    "whole numbers without '.0' with a spectrum split over an all-integer and a mixed chunk -> two rows for the spectrum",
+    "not varied: per-collection descs (C07), proteins / sqlite output / qvalue_algorithm other than tdc, NaN / infinite scores, "
+    "strings that pandas reads as missing values (NA, null ...) or as numbers, PSM ids repeated between collections, "
+    "PYTHONHASHSEED (fixed by ./check), files beyond the default chunk sizes (the constants are lowered instead)",
 ]
 TRUSTED_EXTRA = ["pandas / pyarrow readers and writers of the intermediate and result files (oracle)"]
 
@@ -81,8 +111,197 @@ def gen(ctx):
                       "tags": ["conf", f"coll={ncoll}", "dedup" if dedup else "nodedup", "rollup" if rollup else "norollup",
                                "ties" if ties else "distinct", "levels=%d" % len(levels),
                                "chunk=" + str(chunks.get("confidence", "default"))]})
-    # the stand-alone rollup tool; appended AFTER the assign_confidence cases (C07 re-uses the first cases of this list)
+    # white-box review stream (after the original stream: C07 re-uses the first cases of this list)
+    cases.extend(gen_conf_wb(ctx))
+    # the stand-alone rollup tool; appended AFTER the assign_confidence cases
     cases.extend(gen_rollup(ctx))
+    return cases
+
+
+# ----------------------------------------------------------------------------- white-box review stream
+# Every dimension below is an OPTIONAL field of a "conf" case (absent = the behaviour of the original stream, so the cases
+# that C05 / C07 build keep working): io (column order / names / dtypes / row groups / number formatting of the input file),
+# score_mode + score_kind (value domain and container of the score vector), prefix_list, file_root, stale, prerun, npseed.
+ALL_LEVELS = ["psms", "peptides"] + [lv.lower() + "s" for lv in LEVEL_COLS]
+CASE_VARIANTS = {"SpecId": ["specid", "SPECID", "SpecID"], "Label": ["label", "LABEL"], "ScanNr": ["scannr", "SCANNR"],
+                 "Peptide": ["peptide", "PEPTIDE"], "Proteins": ["proteins", "PROTEINS"],
+                 "ModifiedPeptide": ["modifiedpeptide", "MODIFIEDPEPTIDE"], "Precursor": ["precursor", "PRECURSOR"],
+                 "PeptideGroup": ["peptidegroup", "Peptidegroup"], "ExpMass": ["expmass", "EXPMASS"],
+                 "filename": ["FileName", "FILENAME"], "ret_time": ["RET_TIME", "Ret_Time"],
+                 # feature columns whose names collide with the names mokapot uses internally / in its result files
+                 "feat0": ["score"], "feat1": ["PSMId"], "feat2": ["q-value"], "rid": ["proteinIds"]}
+SCORE_MODES = ["dyadic"] * 6 + ["full"] * 4 + ["xties"] * 5 + ["ties"] * 3 + ["int"] * 2
+
+
+def _spec_cols(f):
+    return [x for x in ("filename", "ScanNr", "ret_time", "ExpMass") if x in f["data"]]
+
+
+def _group_cols(f):
+    """the columns (tuples of columns) whose value defines a group at some level"""
+    return [tuple(_spec_cols(f)), ("Peptide",)] + [(lv,) for lv in LEVEL_COLS if lv in f["data"]]
+
+
+def _wb_scores(rng, f, mode):
+    n = len(f["targets"])
+    if mode == "int":
+        return [float(v) for v in rng.sample(range(-n, 3 * n), n)]
+    if mode == "ties":
+        return [rng.randint(0, max(2, n // 3)) / 4.0 for _ in range(n)]
+    if mode == "full":
+        # what a learner returns: doubles with a full mantissa, of any magnitude; pairwise distinct
+        scale = rng.choice([1.0, 1.0, 1e-6, 1e6, 37.5])
+        out = set()
+        while len(out) < n:
+            out.add((rng.random() * 4.0 - 1.0) * scale)
+        out = list(out)
+        rng.shuffle(out)
+        return out
+    # dyadic: m / 256 with up to 30 significant bits (not representable in float32, at most 15 significant decimal
+    # digits: survives every text round trip exactly), many of them closer than 1e-2 to each other, 0.0 and negatives included
+    base = rng.choice([0, 0, 1 << 20, -(1 << 22), (1 << 29) - 4 * n])
+    ms = rng.sample(range(base - 2 * n, base + 2 * n + 1), n)
+    sc = [m / 256.0 for m in ms]
+    if mode == "xties":
+        # exact ties, but never inside a group (spectrum, peptide, any level entity): the retained sets stay unique
+        groups = _group_cols(f)
+        member = [[tuple(f["data"][x][r] for x in g) for g in groups] for r in range(n)]
+        used = [{} for _ in groups]
+        for r in range(n):
+            for gi, key in enumerate(member[r]):
+                used[gi].setdefault(key, set()).add(sc[r])
+        for _ in range(max(1, n // 2)):
+            a, b = rng.randrange(n), rng.randrange(n)
+            if a == b or sc[a] == sc[b]:
+                continue
+            if any(sc[a] in used[gi][key] for gi, key in enumerate(member[b])):
+                continue
+            for gi, key in enumerate(member[b]):
+                used[gi][key].discard(sc[b])
+                used[gi][key].add(sc[a])
+            sc[b] = sc[a]
+    return sc
+
+
+def _wb_set_targets(f, tg, enc):
+    f["targets"] = list(tg)
+    if enc == "pm1":
+        f["data"]["Label"] = [1 if t else -1 for t in tg]
+    elif enc == "01":
+        f["data"]["Label"] = [1 if t else 0 for t in tg]
+    else:
+        f["data"]["Label"] = [bool(t) for t in tg]
+
+
+def gen_conf_wb(ctx):
+    cases = []
+    rng = ctx.sub("conf-whitebox")
+    n_cases = 600 if ctx.thorough else 150
+    for k in range(n_cases):
+        ncoll = rng.choice([1, 1, 2, 3])
+        nkey = rng.choice([1, 2, 2, 3, 4])
+        levels = [l for l in LEVEL_COLS if rng.random() < 0.4]
+        mode = SCORE_MODES[k % len(SCORE_MODES)] if k < 2 * len(SCORE_MODES) else rng.choice(SCORE_MODES)
+        enc = rng.choice(["pm1", "01", "bool"])
+        fmt = rng.choice(["tsv", "parquet"])
+        mix = rng.choice(["mixed"] * 7 + ["all-targets", "all-decoys", "decoy-top"])
+        size = rng.choice(["tiny", "small", "small", "medium"])
+        force_gfmt = k % 55 == 3          # a few cases per tier are built to land in the known finding KEY_KEY_DTYPE
+        if force_gfmt:
+            fmt, nkey, size = "tsv", rng.choice([2, 4]), "small"
+        files, scores = [], []
+        for j in range(ncoll):
+            n = {"tiny": rng.randint(1, 4), "small": rng.randint(5, 40),
+                 "medium": rng.randint(41, 300 if ctx.thorough else 120)}[size]
+            f = brewlib.gen_file(rng, n, nkey, file_idx=j, mult=(1, rng.choice([1, 3, 5])), levels=levels,
+                                 npep=rng.choice([2, max(2, n // 4), n]), label_enc=enc)
+            if mix == "all-targets":
+                _wb_set_targets(f, [True] * n, enc)
+            elif mix == "all-decoys":
+                _wb_set_targets(f, [False] * n, enc)
+            sc = _wb_scores(rng, f, mode)
+            if mix == "decoy-top":
+                tg = list(f["targets"])
+                tg[max(range(n), key=lambda r: sc[r])] = False
+                _wb_set_targets(f, tg, enc)
+            if k % 9 == 4:
+                # scan numbers beyond 2^31 (and beyond 2^53 when they are read as floats)
+                f["data"]["ScanNr"] = [v + 2 ** 40 + 2 ** 54 * (k % 2) for v in f["data"]["ScanNr"]]
+            files.append(f)
+            scores.append(sc)
+        nmax = max(len(f["targets"]) for f in files)
+        chunks = {}
+        if rng.random() < 0.75:
+            # (one chunk file per row is quadratic in the merge: only for tables of up to 100 rows)
+            chunks["confidence"] = max(1, rng.choice(([1, 2, 3] if nmax <= 100 else [11, 17, 40]) + [7, nmax // 2, nmax - 1, nmax, nmax + 1]))
+        if rng.random() < 0.4:
+            chunks["mergesort"] = max(1, rng.choice([1, 2, 5, nmax + 1]))
+        # ---- the input file
+        io = {}
+        cols = list(files[0]["columns"])
+        if rng.random() < 0.5:
+            rng.shuffle(cols)
+            io["order"] = cols
+        if rng.random() < 0.45:
+            io["rename"] = {c: rng.choice(v) for c, v in CASE_VARIANTS.items() if c in cols and rng.random() < 0.5}
+        if fmt == "parquet":
+            if rng.random() < 0.6:
+                io["row_group"] = max(1, rng.choice([1, 3, 7, nmax // 2, nmax - 1]))
+            if enc != "bool" and rng.random() < 0.4:
+                io["label_dtype"] = rng.choice(["int8", "int32", "float64"])
+            if rng.random() < 0.3:
+                io["categorical"] = [c for c in ["Peptide", "Proteins"] + levels if rng.random() < 0.6]
+            if rng.random() < 0.3 and k % 9 != 4:
+                io["int32"] = ["ScanNr"]
+        elif nkey >= 2 and (force_gfmt or rng.random() < 0.2):
+            # a writer that prints whole numbers without ".0" (C printf("%g")): 500 and 500.25 in one column
+            io["gfmt"] = True
+        # ---- the call
+        pl = None
+        pk = rng.choice(["none", "all", "mixed", "dotted"])
+        if pk == "all":
+            pl = rng.sample(["coll0", "coll1", "coll2", "x"], ncoll)
+        elif pk == "dotted":
+            pl = rng.sample(["run.1", "run.2", "a.b.c"], ncoll)
+        elif pk == "mixed" and ncoll >= 2:
+            pl = [rng.choice([None, "p%d" % j]) for j in range(ncoll)]
+            if all(p is None for p in pl) or all(p is not None for p in pl):
+                pl[rng.randrange(ncoll)] = None if pl[0] is not None else "q"
+        else:
+            pk = "none"
+            pl = [None] * ncoll
+        kind = rng.choice(["f8", "f8", "strided", "negstride", "readonly", "i8", "f4"])
+        flat = [v for sc in scores for v in sc]
+        if kind == "i8" and not all(float(v).is_integer() for v in flat):
+            kind = "f8"
+        if kind == "f4":
+            import struct
+            if not all(struct.unpack("f", struct.pack("f", v))[0] == v for v in flat):
+                kind = "negstride"
+        dedup = rng.random() < 0.6 or force_gfmt
+        rollup = rng.random() < 0.75
+        decoys = rng.random() < (0.85 if mode == "ties" else 0.6)
+        if force_gfmt:
+            chunks["confidence"] = rng.choice([2, 3, 5])
+        c = {"fn": "conf", "files": files, "scores": scores, "dedup": dedup, "rollup": rollup, "decoys": decoys,
+             "prefixes": pk != "none", "prefix_list": pl, "chunks": chunks, "fmt": fmt, "workers": rng.choice([1, 1, 2, 3]),
+             "levels": levels, "ties": mode == "ties", "score_mode": mode, "score_kind": kind, "io": io,
+             "file_root": rng.choice(["", "", "", "exp.", "r_"]), "npseed": rng.randrange(2 ** 31)}
+        if _pq_short_batches(c) and rng.random() < 0.75:
+            del io["row_group"]       # (known finding: such a call fails outright; most of these cases keep one row group)
+        if rng.random() < 0.2:
+            c["stale"] = rng.sample(["chunk", "level", "result", "chunk-far"], rng.randint(1, 3))
+        if rng.random() < 0.15:
+            c["prerun"] = True
+        c["tags"] = ["conf", "wb", f"coll={ncoll}", "dedup" if dedup else "nodedup", "rollup" if rollup else "norollup",
+                     "scores=" + mode, "levels=%d" % len(levels), "mix=" + mix, "size=" + size, "in=" + fmt,
+                     "container=" + kind, "prefix=" + pk, "keycols=%d" % nkey,
+                     "chunk=" + ("default" if "confidence" not in chunks else "small")] + ["bigscan"] * (k % 9 == 4)
+        c["tags"] += ["io-" + x for x in sorted(io)] + ["stale"] * ("stale" in c) + ["prerun"] * ("prerun" in c)
+        c["tags"] += ["file_root"] * bool(c["file_root"])
+        if finding_key(c, None, None):
+            c["tags"].append("finding:" + finding_key(c, None, None))
+        cases.append(c)
     return cases
 
 
@@ -92,6 +311,101 @@ def _const_peps(scores, targets, *a, **k):
     return np.zeros(len(scores))
 
 
+def _prefix_list(c):
+    if c.get("prefix_list") is not None:
+        return list(c["prefix_list"])
+    n = len(c["files"])
+    return ["coll%d" % i for i in range(n)] if c["prefixes"] else [None] * n
+
+
+def _pre(c, j):
+    """what precedes targets.<level> / decoys.<level> in the names of the result files of collection j"""
+    p = _prefix_list(c)[j]
+    return c.get("file_root", "") + (p + "." if p else "")
+
+
+def _groups(c):
+    """collections that share their result files (no prefix: appended in the order of the call)"""
+    out = {}
+    for j in range(len(c["files"])):
+        out.setdefault(_pre(c, j), []).append(j)
+    return out
+
+
+def _is_result_file(fn):
+    return any(fn.endswith(kind + lv) for kind in ("targets.", "decoys.") for lv in ALL_LEVELS)
+
+
+def _write_input(c, f, d, name):
+    io = c.get("io")
+    if not io:
+        return brewlib.write_file(f, d, name, c["fmt"])
+    import pandas as pd
+    cols = io.get("order") or f["columns"]
+    df = pd.DataFrame({k: f["data"][k] for k in cols}, columns=cols)
+    ren = io.get("rename") or {}
+    if c["fmt"] == "parquet":
+        if io.get("label_dtype"):
+            df["Label"] = df["Label"].astype(io["label_dtype"])
+        for col in io.get("categorical", []):
+            df[col] = df[col].astype("category")
+        for col in io.get("int32", []):
+            df[col] = df[col].astype("int32")
+        p = Path(d) / (name + ".parquet")
+        df.rename(columns=ren).to_parquet(p, index=False, row_group_size=io.get("row_group") or max(1, len(df)))
+    else:
+        if io.get("gfmt"):
+            for col in ("ExpMass", "ret_time"):
+                if col in df.columns:
+                    df[col] = [("%d" % v) if float(v).is_integer() else repr(float(v)) for v in f["data"][col]]
+        p = Path(d) / (name + ".pin")
+        df.rename(columns=ren).to_csv(p, sep="\t", index=False)
+    return p
+
+
+def _score_array(c, s):
+    """the container in which the score vector is handed over (values unchanged)"""
+    import numpy as np
+    kind = c.get("score_kind", "f8")
+    if kind == "i8":
+        return np.array([int(v) for v in s], dtype=np.int64)
+    if kind == "f4":
+        return np.array(s, dtype=np.float32)
+    if kind == "strided":
+        base = np.zeros(2 * len(s) + 1, dtype=float)
+        base[1::2] = s
+        return base[1::2]
+    if kind == "negstride":
+        return np.array(s[::-1], dtype=float)[::-1]
+    a = np.array(s, dtype=float)
+    if kind == "readonly":
+        a.setflags(write=False)
+    return a
+
+
+def _stale_files(c, out, ext):
+    """files an earlier (interrupted or completed) run left in the destination directory"""
+    made = []
+    root = c.get("file_root", "")
+    garbage = b"\x00garbage\tof an earlier run\n\x00\n"
+    old_result = "PSMId\tpeptide\tscore\tq-value\tposterior_error_prob\tproteinIds\nOLD\tX\t1e9\t0.0\t0.0\tP\n"
+    for what in c.get("stale", []):
+        for pre in _groups(c):
+            if what == "chunk":
+                names = [pre + "scores_metadata_0" + ext]
+            elif what == "chunk-far":
+                names = [pre + "scores_metadata_%d%s" % (k, ext) for k in (len(c["files"][0]["targets"]) + 5, 10 ** 6)]
+            elif what == "level":
+                names = [root + lv + ext for lv in _level_names(c)]
+            else:
+                # only names this call writes itself (other files in the directory are none of its business)
+                names = [pre + kind + lv for kind in ["targets."] + ["decoys."] * bool(c["decoys"]) for lv in _level_names(c)]
+            for nm in names:
+                (out / nm).write_bytes(old_result.encode() if what == "result" else garbage)
+                made.append(nm)
+    return made
+
+
 def _run_impl(c):
     import numpy as np
     import mokapot
@@ -99,27 +413,34 @@ def _run_impl(c):
     d = tempfile.mkdtemp(prefix="c03_", dir=os.environ.get("VERIF_TMP", "/tmp"))
     old = conf.peps_from_scores
     conf.peps_from_scores = _const_peps
+    rstate = np.random.get_state()
     try:
-        paths = [brewlib.write_file(f, d, "coll%d" % i, c["fmt"]) for i, f in enumerate(c["files"])]
+        paths = [_write_input(c, f, d, "coll%d" % i) for i, f in enumerate(c["files"])]
         out = Path(d) / "out"
         out.mkdir()
+        stale = _stale_files(c, out, paths[0].suffix)
+        if c.get("npseed") is not None:
+            np.random.seed(c["npseed"])       # the state of the global generator is the caller's business
         with brewlib.Chunking(**c.get("chunks", {})):
             dss = mokapot.read_pin(paths, max_workers=1)
-            prefixes = ["coll%d" % i for i in range(len(paths))] if c["prefixes"] else [None] * len(paths)
-            mokapot.assign_confidence(
-                dss, max_workers=c.get("workers", 1), scores=[np.array(s, dtype=float) for s in c["scores"]],
-                descs=[bool(c.get("descs", True))] * len(paths),
-                eval_fdr=0.5, dest_dir=out, prefixes=prefixes, decoys=c["decoys"],
-                deduplication=c["dedup"], do_rollup=c["rollup"])
+            kw = dict(max_workers=c.get("workers", 1), descs=[bool(c.get("descs", True))] * len(paths),
+                      eval_fdr=0.5, dest_dir=out, prefixes=_prefix_list(c), decoys=c["decoys"],
+                      deduplication=c["dedup"], do_rollup=c["rollup"])
+            if c.get("file_root"):
+                kw["file_root"] = c["file_root"]
+            if c.get("prerun"):
+                # an earlier call with other scores into the same directory: everything it wrote must be replaced
+                mokapot.assign_confidence(dss, scores=[-_score_array(c, s) for s in c["scores"]], **kw)
+            mokapot.assign_confidence(dss, scores=[_score_array(c, s) for s in c["scores"]], **kw)
         res = {"files": {}, "leftovers": []}
         for fn in sorted(os.listdir(out)):
-            parts = fn.split(".")
-            if "targets" in parts or "decoys" in parts:
+            if _is_result_file(fn):
                 res["files"][fn] = _parse(out / fn, c)
-            else:
+            elif fn not in stale:
                 res["leftovers"].append(fn)
         return res
     finally:
+        np.random.set_state(rstate)
         conf.peps_from_scores = old
         shutil.rmtree(d, ignore_errors=True)
 
@@ -129,12 +450,13 @@ def _parse(path, c):
     if path.suffix == ".parquet":
         df = pd.read_parquet(path)
     else:
-        df = pd.read_csv(path, sep="\t", float_precision="round_trip")
+        df = pd.read_csv(path, sep="\t", float_precision="round_trip", keep_default_na=False)
+    ren = (c.get("io") or {}).get("rename") or {}
     rows = []
     for _, r in df.iterrows():
         rows.append({"id": str(r["PSMId"]), "peptide": str(r["peptide"]), "proteins": str(r["proteinIds"]),
                      "score": float(r["score"]), "q": Fraction(float(r["q-value"])),
-                     "extra": {lv: str(r[lv]) for lv in c["levels"] if lv in df.columns}})
+                     "extra": {lv: str(r[ren.get(lv, lv)]) if ren.get(lv, lv) in df.columns else None for lv in c["levels"]}})
     return rows
 
 
@@ -178,7 +500,7 @@ def _model(c):
     files = {}
     names = _level_names(c)
     for j, lv in enumerate(per_coll):
-        pre = ("coll%d." % j) if c["prefixes"] else ""
+        pre = _pre(c, j)
         for li, (tg, dc) in enumerate(lv):
             for kind, rows in (("targets", tg), ("decoys", dc)):
                 if kind == "decoys" and not c["decoys"]:
@@ -186,6 +508,11 @@ def _model(c):
                 fn = "%s%s.%s" % (pre, kind, names[li])
                 files.setdefault(fn, []).extend(("f%d_psm%d" % (j, r), Fraction(float(q))) for r, q in rows)
     return files
+
+
+def _by_score_then_id(c, rows):
+    """canonical order of the rows of a result file when equal scores are allowed (their mutual order is free)"""
+    return sorted(rows, key=lambda x: (-_score(c, x[0]), x[0]))
 
 
 def run_case(c):
@@ -196,6 +523,9 @@ def run_case(c):
     if got[0] == "err":
         return model, got
     impl_files = got[1]["files"]
+    # the property itself, evaluated on the files the implementation wrote: covers what the model has no notion of (the
+    # peptide / proteins / score / level cells of a row) and, in the tie streams, the levels that cannot be compared row by row
+    prop = oracle(c, ("ok", {"raw": got[1]}))
     if c["ties"]:
         # any tied winner is accepted: a tied target/decoy pair may swap files, so compare the union
         # of the target and decoy file of a level (only possible when decoys are written)
@@ -208,9 +538,14 @@ def run_case(c):
             return {k: (sorted(v) if (c["decoys"] and k.endswith("psms")) else True) for k, v in out.items()}
         canon_i = merge(impl_files, lambda k, r: _entity(c, k, r["id"]), lambda r: r["score"])
         canon_m = merge(model[1], lambda k, x: _entity(c, k, x[0]), lambda x: _score(c, x[0]))
-        return ("ok", {"tie-canonical": canon_m}), ("ok", {"tie-canonical": canon_i, "raw": got[1]})
+        return ("ok", {"tie-canonical": canon_m}), ("ok", {"tie-canonical": canon_i, "raw": got[1], "property": prop})
     canon = {k: [(r["id"], r["q"]) for r in v] for k, v in impl_files.items()}
-    return model, ("ok", {"files": canon, "raw": got[1]})
+    if c.get("score_mode") == "xties":
+        # equal scores only between rows of different groups: every file holds a unique set of rows, the order among
+        # equal scores is free (that the file is ranked best first is checked by the property oracle)
+        model = ("ok", {k: _by_score_then_id(c, v) for k, v in model[1].items()})
+        canon = {k: _by_score_then_id(c, v) for k, v in canon.items()}
+    return model, ("ok", {"files": canon, "raw": got[1], "property": prop})
 
 
 def _locate(pid):
@@ -236,6 +571,12 @@ def _entity(c, fn, pid):
     return str((j, f["data"][names[level]][r]))
 
 
+def _files_equal(m, i):
+    a = {k: [(x, y) for x, y in v] for k, v in m[1].items()}
+    b = {k: [(x, y) for x, y in v] for k, v in i[1]["files"].items()}
+    return lib.jsonable(a) == lib.jsonable(b)
+
+
 def same(c, m, i):
     if c["fn"] in RU_FNS:
         return ru_same(c, m, i)
@@ -243,11 +584,11 @@ def same(c, m, i):
         return False
     if i[0] == "err":
         return False
+    if i[1].get("property") is not None or i[1]["raw"]["leftovers"]:
+        return False
     if c["ties"]:
         return m[1]["tie-canonical"] == i[1]["tie-canonical"]
-    a = {k: [(x, y) for x, y in v] for k, v in m[1].items()}
-    b = {k: [(x, y) for x, y in v] for k, v in i[1]["files"].items()}
-    return lib.jsonable(a) == lib.jsonable(b) and not i[1]["raw"]["leftovers"]
+    return _files_equal(m, i)
 
 
 def nontrivial(c):
@@ -267,6 +608,18 @@ def nontrivial(c):
 
 
 # ----------------------------------------------------------------------------- the property itself
+ULP_MSG = "differs from the score of the input PSM in the last digits only"
+KEY_TEXT_SCORE = "confidence:score-text-roundtrip"
+KEY_KEY_DTYPE = "confidence:spectrum-key-dtype-per-chunk"
+KEY_PQ_DICT = "confidence:parquet-dictionary-columns-row-groups"
+
+
+def _close(a, b):
+    """equal up to the 10th significant digit (observed: up to 7e-13 relative): what two decimal round trips through pandas' default (fast, not correctly
+    rounding) float parser can do to a double; a float32 cast or a %.6g format is off by 1e-8 or more"""
+    return abs(a - b) <= 1e-10 * max(abs(a), abs(b))
+
+
 def oracle(c, i):
     if c["fn"] in RU_FNS:
         return ru_oracle(c, i)
@@ -275,18 +628,33 @@ def oracle(c, i):
     raw = i[1]["raw"]
     files = raw["files"]
     names = _level_names(c)
-    ncoll = len(c["files"])
     if raw["leftovers"]:
         return f"intermediate files remain: {raw['leftovers']}"
-    for j in range(ncoll) if c["prefixes"] else [None]:
-        pre = ("coll%d." % j) if j is not None else ""
-        colls = [j] if j is not None else list(range(ncoll))
+    from .c01 import exact_ints
+    es = eff_scores(c)
+    ulp = None
+    expected = set()
+    for pre, colls in _groups(c).items():
         retained = None
         for li, level in enumerate(names):
+            expected.add("%stargets.%s" % (pre, level))
             tg = files.get("%stargets.%s" % (pre, level))
             if tg is None:
                 return f"missing result file {pre}targets.{level}"
-            dc = files.get("%sdecoys.%s" % (pre, level), []) if c["decoys"] else None
+            dc = None
+            if c["decoys"]:
+                expected.add("%sdecoys.%s" % (pre, level))
+                dc = files.get("%sdecoys.%s" % (pre, level))
+                if dc is None:
+                    return f"missing result file {pre}decoys.{level}"
+            for r in tg + (dc or []):
+                try:
+                    jj, ri = _locate(r["id"])
+                    ok = jj in colls and 0 <= ri < len(c["files"][jj]["targets"])
+                except Exception:
+                    ok = False
+                if not ok:
+                    return f"{pre}*.{level}: row {r['id']} is not a PSM of the collection(s) written to this file"
             # split by collection (un-prefixed outputs are appended collection after collection)
             for jj in colls:
                 f = c["files"][jj]
@@ -294,24 +662,54 @@ def oracle(c, i):
                 d_rows = [r for r in dc if _locate(r["id"])[0] == jj] if dc is not None else None
                 for r in t_rows + (d_rows or []):
                     _, ri = _locate(r["id"])
-                    if r["peptide"] != f["data"]["Peptide"][ri] or r["proteins"] != f["data"]["Proteins"][ri] \
-                            or r["score"] not in (float(eff_scores(c)[jj][ri]), float(c["scores"][jj][ri])):
-                        return f"row {r['id']} of {level} does not carry the peptide/proteins/score of one input PSM"
+                    if r["peptide"] != f["data"]["Peptide"][ri] or r["proteins"] != f["data"]["Proteins"][ri]:
+                        return f"row {r['id']} of {level} does not carry the peptide/proteins of this input PSM"
+                    for lv, v in r["extra"].items():
+                        if v is None and not c["rollup"]:
+                            continue          # the level columns are only carried along when the levels are computed
+                        if v != str(f["data"][lv][ri]):
+                            return f"row {r['id']} of {level}: column {lv} is {v!r}, the input PSM has {f['data'][lv][ri]!r}"
+                    want = (float(es[jj][ri]), float(c["scores"][jj][ri]))
+                    got_sc = r["score"]
+                    if c.get("score_kind") == "f4":
+                        # a float32 vector is printed with the (shorter) digits that identify a float32: same number
+                        import struct
+                        got_sc = struct.unpack("f", struct.pack("f", got_sc))[0]
+                    if got_sc not in want:
+                        if not any(_close(r["score"], w) for w in want):
+                            return f"row {r['id']} of {level} does not carry the score of this input PSM ({r['score']!r}, input {want[0]!r})"
+                        ulp = ulp or f"row {r['id']} of {level}: score {r['score']!r} {ULP_MSG} ({want[0]!r})"
                 if any(not f["targets"][_locate(r["id"])[1]] for r in t_rows):
                     return f"decoy in targets.{level}"
                 if d_rows is not None and any(f["targets"][_locate(r["id"])[1]] for r in d_rows):
                     return f"target in decoys.{level}"
                 for rows in (t_rows, d_rows or []):
-                    sc = [eff_scores(c)[jj][_locate(r["id"])[1]] for r in rows]
+                    sc = [es[jj][_locate(r["id"])[1]] for r in rows]
                     if any(a < b for a, b in zip(sc, sc[1:])):
                         return f"{level}: rows are not ranked best first" + ("" if c.get("descs", True) else " (lower is better: low values must come first)")
+                ids_t = [_locate(r["id"])[1] for r in t_rows]
+                if len(set(ids_t)) != len(ids_t):
+                    return f"{level}: a PSM appears twice"
+                key_fn = "%stargets.%s" % (pre, level)
                 if d_rows is None:
-                    continue          # cannot reconstruct the retained set without the decoy file
+                    # without the decoy file the retained set cannot be reconstructed; what can be said of the targets alone:
+                    # one row per entity, and (PSM level, where the universe is the input) a best row of its group
+                    ents = [_entity(c, key_fn, r["id"]) for r in t_rows]
+                    if len(set(ents)) != len(ents):
+                        return f"{level}: two target rows of the same entity"
+                    if level == "psms":
+                        best = {}
+                        for ri in range(len(f["targets"])):
+                            e = _entity(c, key_fn, "f%d_psm%d" % (jj, ri))
+                            best[e] = max(best.get(e, es[jj][ri]), es[jj][ri])
+                        for r in t_rows:
+                            if es[jj][_locate(r["id"])[1]] != best[_entity(c, key_fn, r["id"])]:
+                                return f"{level}: row {r['id']} is not a highest-scoring PSM of its entity"
+                    continue
                 ids = [_locate(r["id"])[1] for r in t_rows + d_rows]
                 if len(set(ids)) != len(ids):
                     return f"{level}: a PSM appears twice"
                 # expected retained set
-                key_fn = "%stargets.%s" % (pre, level)
                 if level == "psms":
                     universe = list(range(len(f["targets"])))
                 else:
@@ -325,23 +723,84 @@ def oracle(c, i):
                     g = groups.get(_entity(c, key_fn, "f%d_psm%d" % (jj, ri)))
                     if g is None or ri not in g:
                         return f"{level}: row f{jj}_psm{ri} is not among the retained PSMs"
-                    if eff_scores(c)[jj][ri] != max(eff_scores(c)[jj][x] for x in g):
+                    if es[jj][ri] != max(es[jj][x] for x in g):
                         return f"{level}: row f{jj}_psm{ri} is not a highest-scoring PSM of its entity"
                 if level == "psms":
                     retained = retained or {}
                     retained[jj] = ids
                 # q-values = C01 formula on exactly these rows
-                from .c01 import exact_ints
-                allr = sorted(t_rows + d_rows, key=lambda r: -eff_scores(c)[jj][_locate(r["id"])[1]])
-                spec = q_spec(exact_ints([eff_scores(c)[jj][_locate(r["id"])[1]] for r in allr]), [f["targets"][_locate(r["id"])[1]] for r in allr], True)
+                allr = sorted(t_rows + d_rows, key=lambda r: -es[jj][_locate(r["id"])[1]])
+                spec = q_spec(exact_ints([es[jj][_locate(r["id"])[1]] for r in allr]), [f["targets"][_locate(r["id"])[1]] for r in allr], True)
                 for r, q in zip(allr, spec):
                     if Fraction(float(q)) != r["q"]:
                         return f"{level}: q-value of {r['id']} is {float(r['q'])}, C01 formula on the retained rows gives {float(q)}"
-    return None
+    if set(files) - expected:
+        return f"unexpected result files {sorted(set(files) - expected)}"
+    return ulp
+
+
+def _dtype_split_spectrum(c):
+    """some spectrum has PSMs in two confidence chunks of which one holds only whole numbers in a float-valued key column
+    printed %g-style (pandas reads that chunk's column as integers) and the other does not"""
+    if not (c.get("io") or {}).get("gfmt") or not c["dedup"]:
+        return False
+    cs = c.get("chunks", {}).get("confidence")
+    if not cs:
+        return False
+    for f in c["files"]:
+        n = len(f["targets"])
+        cols = _spec_cols(f)
+        for col in ("ExpMass", "ret_time"):
+            if col not in f["data"]:
+                continue
+            kinds = {}
+            for r in range(n):
+                kinds.setdefault(r // cs, []).append(float(f["data"][col][r]).is_integer())
+            as_int = {ch: all(v) for ch, v in kinds.items()}
+            seen = {}
+            for r in range(n):
+                key = tuple(f["data"][x][r] for x in cols)
+                if float(f["data"][col][r]).is_integer():
+                    if seen.setdefault(key, as_int[r // cs]) != as_int[r // cs]:
+                        return True
+    return False
+
+
+def _pq_short_batches(c):
+    """Parquet input with a dictionary-encoded (pandas categorical) metadata column: pyarrow's iter_batches then does not
+    continue a batch across a row-group boundary, so the chunks of the file no longer line up with the CONFIDENCE_CHUNK_SIZE
+    slices of the score vector"""
+    io = c.get("io") or {}
+    if c["fmt"] != "parquet" or not io.get("categorical"):
+        return False
+    cs = c.get("chunks", {}).get("confidence", 1000000)
+    for f in c["files"]:
+        n = len(f["targets"])
+        rg = io.get("row_group") or max(1, n)
+        batches = [min(cs, g + min(rg, n - g) - b) for g in range(0, n, rg) for b in range(g, g + min(rg, n - g), cs)]
+        slices = [min(cs, n - b) for b in range(0, n, cs)]
+        if batches != slices:
+            return True
+    return False
 
 
 def finding_key(c, m, i):
+    if c["fn"] != "conf":
+        return None
+    if _pq_short_batches(c):
+        return KEY_PQ_DICT if i is None or tuple(i) == ("err", "ValueError") else None
+    if _dtype_split_spectrum(c):
+        return KEY_KEY_DTYPE
+    if c.get("score_mode") == "full" and c["fmt"] == "tsv":
+        if i is None or m is None:
+            return KEY_TEXT_SCORE if i is None else (KEY_TEXT_SCORE if _only_ulp(i) else None)
+        if _only_ulp(i) and (c["ties"] or _files_equal(m, i)):
+            return KEY_TEXT_SCORE
     return None
+
+
+def _only_ulp(i):
+    return i[0] == "ok" and isinstance(i[1].get("property"), str) and ULP_MSG in i[1]["property"]
 
 
 # ============================================================================= the stand-alone rollup tool
@@ -358,12 +817,23 @@ RU_STD = {a: k for k, v in RU_ALIASES.items() for a in v}
 RU_TAIL = ["score", "q-value", "posterior_error_prob", "proteinIds"]
 
 
-def _ru_rows(rng, n, columns, ties, id0=0, npep=None):
+def _ru_rows(rng, n, columns, ties, id0=0, npep=None, score_mode="half", intids=False):
     npep = npep or rng.choice([2, max(2, n // 4), n])
     # an unmodified peptide, its modified form and its group often are the same string: the levels must not share state
     shared = rng.random() < 0.35
     if ties:
         scores = [rng.randint(0, max(2, n // 3)) * 0.5 for _ in range(n)]
+    elif score_mode == "dyadic":
+        # m / 256, up to 30 significant bits, neighbours 1/256 apart (exact through every text round trip)
+        base = rng.choice([0, 1 << 20, -(1 << 22), (1 << 29) - 4 * n])
+        scores = [m / 256.0 for m in rng.sample(range(base - 2 * n, base + 2 * n + 1), n)]
+    elif score_mode == "full":
+        scale = rng.choice([1.0, 1e-6, 1e6])
+        scores = set()
+        while len(scores) < n:
+            scores.add((rng.random() * 4.0 - 1.0) * scale)
+        scores = list(scores)
+        rng.shuffle(scores)
     else:
         scores = [v * 0.5 for v in rng.sample(range(-n, 3 * n + 2), n)]
     rows = []
@@ -376,7 +846,11 @@ def _ru_rows(rng, n, columns, ties, id0=0, npep=None):
             elif std == "peptide":
                 r.append("PEP%d" % rng.randint(0, npep))
             elif std in ("precursor", "modified_peptide", "peptide_group"):
-                r.append("%s%d" % ("PEP" if shared else std[:2], rng.randint(0, max(1, npep // 2))))
+                if intids:
+                    # database ids (PCM_ID, PEPTIDE_ID ...): integers, the same numbers at different levels
+                    r.append(rng.randint(0, max(1, npep // 2)) + (0 if shared else 1000 * len(std)))
+                else:
+                    r.append("%s%d" % ("PEP" if shared else std[:2], rng.randint(0, max(1, npep // 2))))
             elif std == "score":
                 r.append(scores[k])
             elif std in ("q_value", "posterior_error_prob"):
@@ -395,7 +869,7 @@ RU_MALFORMED = ["unsorted", "empty", "unsorted", "only_empty", "unsorted", "nofi
                 "unsorted", "noscore"]
 
 
-def _ru_gen_direct(rng, stream, big=False, malform=None):
+def _ru_gen_direct(rng, stream, big=False, malform=None, ncoll=None):
     base = rng.choice(["psm"] * 5 + ["precursor"] * 2 + ["peptide"] * 2 + ["modifiedpeptide", "peptidegroup"])
     fmt = rng.choice(["tsv", "tsv", "parquet"])
     root = rng.choice(["rollup", "rollup", "rollup", "r", "out.x"])
@@ -405,8 +879,13 @@ def _ru_gen_direct(rng, stream, big=False, malform=None):
     lv = [rng.choice(RU_ALIASES[k]) for k in ("precursor", "modified_peptide", "peptide_group") if rng.random() < 0.55]
     rng.shuffle(lv)
     columns += lv + RU_TAIL
+    wb = random_wb(rng, stream, fmt, big)
+    if wb["colshuffle"]:
+        rest = columns[1:]
+        rng.shuffle(rest)
+        columns = columns[:1] + rest
     si = columns.index("score")
-    ncoll = rng.choice([1, 2, 2, 3, 4])
+    ncoll = ncoll or rng.choice([1, 2, 2, 3, 4])
     names = rng.sample(["a", "b", "c", "d", "run1", "x.y"], ncoll)
     variant = []
     if rng.random() < 0.1:
@@ -419,11 +898,11 @@ def _ru_gen_direct(rng, stream, big=False, malform=None):
     if len(slots) > 1 and rng.random() < 0.07:
         slots.remove(rng.choice([s for s in slots if s[1] == "targets"]))
         variant.append("notargets")
-    n = rng.randint(len(slots), 60) if not big else rng.randint(1100, 1500)
+    n = rng.randint(len(slots), 60) if not big else (rng.randint(1100, 1500) if big is True else big)
     if rng.random() < 0.15 and not big:
         n = rng.randint(len(slots), len(slots) + 3)
     ties = stream == "ties"
-    rows = _ru_rows(rng, n, columns, ties)
+    rows = _ru_rows(rng, n, columns, ties, score_mode=wb["score_mode"], intids=wb["intids"])
     per = {s: [] for s in slots}
     order = list(range(n))
     rng.shuffle(order)
@@ -442,12 +921,25 @@ def _ru_gen_direct(rng, stream, big=False, malform=None):
             files.append({"name": "%s.%s.%ss" % (root, kind, base), "rows": _ru_sorted(st, si)})
         variant.append("stale")
     c = {"fn": "rollup", "base": base, "fmt": fmt, "root": root, "columns": columns, "files": files, "stream": stream,
-         "ties": ties, "variant": variant}
+         "ties": ties, "variant": variant, "inplace": wb["inplace"], "rerun": wb["rerun"]}
     if stream == "malformed":
         _ru_malform(rng, c, si, malform)
     c["tags"] = ["rollup_tool", "ru-" + stream, "ru-base=" + base, "ru-" + fmt, "ru-coll=%d" % ncoll,
-                 "ru-levelcols=%d" % len(lv)] + ["ru-" + v for v in c["variant"]]
+                 "ru-levelcols=%d" % len(lv), "ru-scores=" + ("ties" if ties else wb["score_mode"])] + ["ru-" + v for v in c["variant"]]
+    c["tags"] += ["ru-" + k for k in ("colshuffle", "intids", "inplace", "rerun") if wb[k]] + ["ru-big"] * bool(big)
     return c
+
+
+def random_wb(rng, stream, fmt, big):
+    """white-box review dimensions of a rollup-tool case (drawn for every case, so that the streams stay aligned)"""
+    wb = {"colshuffle": rng.random() < 0.5, "intids": rng.random() < 0.3,
+          "score_mode": rng.choice(["half", "half", "dyadic", "dyadic", "full"]),
+          "inplace": rng.random() < 0.3, "rerun": rng.random() < 0.2}
+    if wb["score_mode"] == "full" and fmt != "parquet":
+        # a text source file IS its decimal digits; which double they denote is the reader's business (pandas' default
+        # parser is not exact in the last digit), so full-mantissa scores are only given in the binary format
+        wb["score_mode"] = "dyadic"
+    return wb
 
 
 def _ru_malform(rng, c, si, kind):
@@ -550,9 +1042,15 @@ def gen_rollup(ctx):
         cases.append(_ru_gen_direct(rng, "ties"))
     for k in range(140 if ctx.thorough else 50):
         cases.append(_ru_gen_direct(rng, "malformed", malform=RU_MALFORMED[k % len(RU_MALFORMED)]))
+    # longer than the 1000-row write buffers of the tool (both tiers); thorough: also longer than the 10000-row
+    # chunks in which the merged reader pulls rows from each source file
+    cases.append(_ru_gen_direct(ctx.sub("rollup-big"), "default", big=True))
     if ctx.thorough:
-        for k in range(2):     # longer than the 1000-row write buffers of the tool
-            cases.append(_ru_gen_direct(rng, "default", big=True))
+        cases.append(_ru_gen_direct(ctx.sub("rollup-big2"), "default", big=True))
+        huge = _ru_gen_direct(ctx.sub("rollup-huge"), "default", big=24000, ncoll=1)
+        huge["oracle_only"] = True
+        huge["tags"].append("ru-oracle-only")
+        cases.append(huge)
     rng = ctx.sub("rollup_ac")
     for k in range(60 if ctx.thorough else 18):
         cases.append(_ru_gen_ac(rng))
@@ -585,8 +1083,13 @@ def _ru_read_file(path):
     cols = [str(x) for x in df.columns]
     rows = []
     for rec in df.itertuples(index=False, name=None):
-        rows.append([float(v) if isinstance(v, (int, float)) and not isinstance(v, bool) else str(v) for v in rec])
+        rows.append([_ru_num(v) if isinstance(v, (int, float)) and not isinstance(v, bool) else str(v) for v in rec])
     return cols, rows
+
+
+def _ru_num(v):
+    """numbers of a result file: whole numbers of an integer column stay integers (database ids), the rest are floats"""
+    return int(v) if isinstance(v, int) else float(v)
 
 
 def _ru_schema(path):
@@ -652,18 +1155,22 @@ def _ru_impl(c):
     old = br.peps_from_scores
     br.peps_from_scores = _const_peps
     try:
-        src, dest = d / "src", d / "dest"
+        src = d / "src"
+        # the tool's defaults are src_dir = dest_dir = "./": rolling up inside the source directory is the normal use
+        dest = src if c.get("inplace") else d / "dest"
         src.mkdir()
-        dest.mkdir()
+        dest.mkdir(exist_ok=True)
         desc = _ru_make_src(c, src)
+        before = {name: (src / name).read_bytes() for name in os.listdir(src)} if c.get("inplace") else {}
 
         def run():
-            br.main(["--level", c["base"], "--src_dir", str(src), "--dest_dir", str(dest), "--file_root", c["root"],
-                     "--verbosity", "0"])
+            for _ in range(2 if c.get("rerun") else 1):
+                br.main(["--level", c["base"], "--src_dir", str(src), "--dest_dir", str(dest), "--file_root", c["root"],
+                         "--verbosity", "0"])
             raw = {}
             for name in sorted(os.listdir(dest)):
-                if ".temp." in name:
-                    continue
+                if ".temp." in name or (name in before and (dest / name).read_bytes() == before[name]):
+                    continue          # (in place: a source file the tool did not touch)
                 cols, rows = _ru_read_file(dest / name)
                 raw[name] = {"columns": cols, "rows": rows}
             return raw
@@ -743,6 +1250,12 @@ def ru_run_case(c):
         t = Toks(lib.run_driver([line])[0])
         return t.result(lambda: t.lst(t.s)), call_impl(_ru_levels_impl, c)
     desc, got = _ru_impl(c)
+    if c.get("oracle_only"):
+        # too long for the extracted model (its lists make the run cubic): the property oracle alone decides
+        if got[0] == "err":
+            return ("ok", {"oracle-only": True}), got
+        return ("ok", {"oracle-only": True}), ("ok", {"raw": got[1], "desc": desc, "oracle-only": True,
+                                                      "property": ru_oracle(c, ("ok", {"raw": got[1], "desc": desc}))})
     m, suffix = _ru_model(c, desc)
     if got[0] == "err":
         return m, got
@@ -750,6 +1263,8 @@ def ru_run_case(c):
         return m, ("ok", {"raw": got[1], "desc": desc})
     raw = got[1]
     root = c["root"]
+    # the property itself on the files the tool wrote (every cell of a row is the input row's; with ties: some best row)
+    prop = ru_oracle(c, ("ok", {"raw": raw, "desc": desc}))
     if c["ties"]:
         # any tied winner is accepted (a tied target / decoy pair may even swap files): per level the
         # (entity, score) pairs of the target and decoy file together
@@ -766,7 +1281,7 @@ def ru_run_case(c):
         ci = {k: sorted(v) for k, v in ci.items()}
         names_m = sorted("%s.%s.%ss%s" % (root, kind, lv, suffix) for lv, _, _ in m[1] for kind in ("targets", "decoys"))
         return (("ok", {"tie-canonical": cm, "names": names_m}),
-                ("ok", {"tie-canonical": ci, "names": sorted(raw), "raw": raw, "desc": desc}))
+                ("ok", {"tie-canonical": ci, "names": sorted(raw), "raw": raw, "desc": desc, "property": prop}))
     files_m = {}
     for lv, tg, dc in m[1]:
         for kind, rows in (("targets", tg), ("decoys", dc)):
@@ -775,7 +1290,7 @@ def ru_run_case(c):
     for name, f in raw.items():
         recs = [dict(zip(f["columns"], r)) for r in f["rows"]]
         files_i[name] = [(str(rec.get("psm_id")), Fraction(rec["q_value"]) if "q_value" in rec else None) for rec in recs]
-    return ("ok", {"files": files_m}), ("ok", {"files": files_i, "raw": raw, "desc": desc})
+    return ("ok", {"files": files_m}), ("ok", {"files": files_i, "raw": raw, "desc": desc, "property": prop})
 
 
 def ru_same(c, m, i):
@@ -785,6 +1300,10 @@ def ru_same(c, m, i):
         return False
     if m[0] == "err":
         return m[1] == i[1]
+    if i[1].get("property") is not None:
+        return False
+    if c.get("oracle_only"):
+        return bool(i[1].get("oracle-only")) and bool(i[1]["raw"])
     if c["ties"]:
         return lib.jsonable(m[1]["tie-canonical"]) == lib.jsonable(i[1]["tie-canonical"]) and m[1]["names"] == i[1]["names"]
     return lib.jsonable(m[1]["files"]) == lib.jsonable(i[1]["files"])
@@ -819,6 +1338,22 @@ def _ru_descendants(base, parent):
                 out.append(ch)
                 changed = True
     return out
+
+
+def _q_sorted(scores_exact, targets):
+    """q_spec(scores, targets, True) in O(n log n) (long files only; compared with q_spec in extra_checks)"""
+    order = sorted(range(len(scores_exact)), key=lambda j: -scores_exact[j])
+    fdr, t, d, k = {}, 0, 0, 0
+    while k < len(order):
+        s = scores_exact[order[k]]
+        while k < len(order) and scores_exact[order[k]] == s:
+            t, d, k = t + bool(targets[order[k]]), d + (not targets[order[k]]), k + 1
+        fdr[s] = Fraction(1) if t == 0 else Fraction(d + 1, t)
+    cur, best = Fraction(1), {}
+    for s in sorted(fdr):
+        cur = min(cur, fdr[s])
+        best[s] = cur
+    return [best[s] for s in scores_exact]
 
 
 def ru_oracle(c, i):
@@ -897,7 +1432,8 @@ def ru_oracle(c, i):
             g = groups[_ru_cell(desc, w, lv)]
             if _ru_cell(desc, w, "score") != max(_ru_cell(desc, x, "score") for x in g):
                 return f"{lv}s: row {_ru_cell(desc, w, 'psm_id')} is not a highest-scoring row of its entity over all input files"
-        spec = q_spec(exact_ints([_ru_cell(desc, w, "score") for w, _, _ in got]), [t for _, t, _ in got], True)
+        spec = (q_spec if len(got) < 3000 else lambda a, b, _: _q_sorted(a, b))(
+            exact_ints([_ru_cell(desc, w, "score") for w, _, _ in got]), [t for _, t, _ in got], True)
         for (w, _, rec), q in zip(got, spec):
             if Fraction(float(q)) != Fraction(rec["q_value"]):
                 return f"{lv}s: q-value of {rec.get('psm_id')} is {rec['q_value']}, C01 formula on the retained rows gives {float(q)}"
@@ -915,4 +1451,12 @@ def extra_checks(ctx):
     if [list(x) for x in cmap] != [list(x) for x in br.STANDARD_COLUMN_NAME_MAP.items()]:
         fails.append({"what": "STANDARD_COLUMN_NAME_MAP differs from Model/Rollup.v ru_column_map: %r" % (list(br.STANDARD_COLUMN_NAME_MAP.items()),),
                       "failing_input": None})
+    rng = ctx.sub("q-sorted")
+    for k in range(200):
+        n = rng.randint(0, 40)
+        sc = [rng.randint(-5, 12) for _ in range(n)]
+        tg = [rng.random() < 0.6 for _ in range(n)]
+        if _q_sorted(sc, tg) != q_spec(sc, tg, True):
+            fails.append({"what": "harness self-test: _q_sorted differs from c01.q_spec on %r %r" % (sc, tg), "failing_input": None})
+            break
     return fails, {"rollup_tables_compared": 2}
